@@ -168,3 +168,57 @@ def run_programs(ck, exe, engines, nprogs, opts=None, argsets=None, per_batch=12
             fails += fl
             nev += n
     return fails, nev, stats, work
+
+
+def shrink_text(exe, engines, text, plan, entry, workdir, kind="engines-differ", budget=200):
+    """delta-debugging on the lines of the entry function's body (labels, fuel checks and
+    extensions of 32-bit results are kept, so the program stays well defined)"""
+    lines = text.split("\n")
+    s = next(i for i, l in enumerate(lines) if l.startswith(entry + ":"))
+    first = next(i for i in range(s, len(lines)) if lines[i].startswith(entry + "_") and lines[i].endswith(":"))
+    last = max(i for i in range(s, len(lines)) if lines[i].startswith(entry + "_END"))
+
+    def fails(ls):
+        rc, out, err = run_engine(exe, engines, "\n".join(ls), plan, workdir, "shrinkt", timeout=25)
+        res, errs = parse(out)
+        if kind == "engine-abort":
+            return rc != 0 or bool(errs)
+        if rc != 0 or errs or not res:
+            return False
+        return any((not r["same"]) and not r["results"][0].startswith("!") for r in res)
+
+    def protected(l):
+        t = l.split()
+        if not t or l.endswith(":"):
+            return True
+        if "fuel" in l:
+            return True
+        if t[0] in ("ext32", "uext32") and len(t) == 3 and t[1].rstrip(",") == t[2]:
+            return True
+        if t[0] in ("bo", "bno", "ubo", "ubno"):
+            return True
+        return False
+    tries = 0
+    chunk = max(1, (last - first) // 4)
+    while chunk >= 1 and tries < budget:
+        i = first
+        progress = False
+        while i < last and tries < budget:
+            rm = [j for j in range(i, min(i + chunk, last)) if not protected(lines[j])]
+            # an overflow insn must keep its branch: drop the pair together
+            rm2 = set(rm)
+            for j in rm:
+                if j + 1 < last and lines[j + 1].split()[:1] and lines[j + 1].split()[0] in ("bo", "bno", "ubo", "ubno"):
+                    rm2.add(j + 1)
+            if rm2:
+                cand = [l for j, l in enumerate(lines) if j not in rm2]
+                tries += 1
+                if fails(cand):
+                    lines = cand
+                    last -= len(rm2)
+                    progress = True
+                    continue
+            i += chunk
+        if not progress or chunk == 1:
+            chunk //= 2
+    return "\n".join(lines)
